@@ -79,8 +79,113 @@ def _kw_names(call):
     return sorted(k.arg for k in call.keywords if k.arg)
 
 
+def _base_name(node):
+    """Leftmost name of an attribute / subscript / call chain (`a.b[c].d` -> 'a'; `type(self).x` -> 'type(self)')."""
+    while True:
+        if isinstance(node, ast.Attribute):
+            node = node.value
+        elif isinstance(node, ast.Subscript):
+            node = node.value
+        elif isinstance(node, ast.Call):
+            f = node.func
+            if isinstance(f, ast.Name) and f.id in ("type", "vars", "getattr", "super"):
+                return f.id + "(...)"
+            node = f
+        elif isinstance(node, ast.Name):
+            return node.id
+        else:
+            return None
+
+
+def _pin_stateless(tree, fn, file, class_names, allow_result_objects):
+    """The conversion reads nothing but its arguments and the exchanger's CURRENT attributes, and leaves nothing behind:
+    no assignment to an attribute / item of `self`, of a class, of `type(self)`; no `__dict__`, `setattr`, `getattr`,
+    `vars`, `global`, `nonlocal`; no reference to the class object itself; no decorator (lru_cache & co).  Attribute
+    assignments are allowed only on the objects the function creates locally (`allow_result_objects`)."""
+    if fn.decorator_list:
+        raise Unsupported(file, fn, f"{fn.name}: decorated (memoising decorators are not part of the modelled conversion)")
+    # class names may appear as constructors (`SingleUTube(...)`) and in annotations only
+    harmless = set()
+    for n in ast.walk(fn):
+        if isinstance(n, ast.Call) and isinstance(n.func, ast.Name) and n.func.id in class_names:
+            harmless.add(id(n.func))
+    for ann in [fn.returns] + [a.annotation for a in fn.args.args + fn.args.kwonlyargs]:
+        if ann is not None:
+            harmless.update(id(x) for x in ast.walk(ann))
+    for n in ast.walk(fn):
+        if id(n) in harmless:
+            continue
+        if isinstance(n, (ast.Global, ast.Nonlocal)):
+            raise Unsupported(file, n, f"{fn.name}: global/nonlocal state")
+        if isinstance(n, ast.Name) and n.id in class_names:
+            raise Unsupported(file, n, f"{fn.name}: refers to the class object {n.id} (class-level state such as a cache or warm start)")
+        if isinstance(n, ast.Name) and n.id in ("setattr", "getattr", "vars", "globals", "locals", "delattr", "hasattr"):
+            raise Unsupported(file, n, f"{fn.name}: dynamic attribute access through {n.id}()")
+        if isinstance(n, ast.Attribute) and n.attr in ("__dict__", "__class__"):
+            raise Unsupported(file, n, f"{fn.name}: reads {n.attr} (hidden instance/class state)")
+        targets = []
+        if isinstance(n, ast.Assign):
+            targets = n.targets
+        elif isinstance(n, (ast.AugAssign, ast.AnnAssign)):
+            targets = [n.target]
+        elif isinstance(n, ast.Delete):
+            targets = n.targets
+        for t in targets:
+            for tt in (t.elts if isinstance(t, (ast.Tuple, ast.List)) else [t]):
+                if isinstance(tt, (ast.Attribute, ast.Subscript)):
+                    b = _base_name(tt)
+                    if b not in allow_result_objects:
+                        raise Unsupported(file, tt, f"{fn.name}: assigns to state of `{b}` (only the tube being built may be modified; "
+                                                    f"anything kept on the exchanger, its class or the module is a memo)")
+    # attributes of `self` that are READ must be the exchanger's public ingredients
+    for n in ast.walk(fn):
+        if isinstance(n, ast.Attribute) and isinstance(n.value, ast.Name) and n.value.id == "self" and n.attr.startswith("_"):
+            raise Unsupported(file, n, f"{fn.name}: reads the private attribute self.{n.attr}")
+
+
+def _pin_module_has_no_state(tree, file):
+    """Module level: only imports, classes, functions and docstrings (no module-level caches)."""
+    for n in tree.body:
+        ok = isinstance(n, (ast.Import, ast.ImportFrom, ast.ClassDef, ast.FunctionDef)) or \
+            (isinstance(n, ast.Expr) and isinstance(n.value, ast.Constant) and isinstance(n.value.value, str))
+        if not ok:
+            raise Unsupported(file, n, "module-level statement other than import/class/def (possible module-level state)")
+
+
+def _pin_class_body(cls, file):
+    """Class body: only methods and docstrings (no class-level attributes that could carry state between calls)."""
+    for n in cls.body:
+        ok = isinstance(n, ast.FunctionDef) or (isinstance(n, ast.Expr) and isinstance(n.value, ast.Constant) and isinstance(n.value.value, str)) \
+            or isinstance(n, ast.Pass)
+        if not ok:
+            raise Unsupported(file, n, f"class {cls.name}: class-level statement other than a method (class-level state)")
+
+
 def main(write, HEADER, parse, PKG):
     tree = parse(FILE)
+    # ---- structural pins: the conversion is a function of its arguments and the exchanger's current attributes
+    _pin_module_has_no_state(tree, FILE)
+    class_names = {n.name for n in tree.body if isinstance(n, ast.ClassDef)}
+    for cname in (CLS, "MultipleUTube", "CoaxialPipe", "SingleUTube"):
+        cnode = next((n for n in tree.body if isinstance(n, ast.ClassDef) and n.name == cname), None)
+        if cnode is None:
+            raise Unsupported(FILE, tree, f"class {cname} not found")
+        _pin_class_body(cnode, FILE)
+    pins = [(f"{CLS}.equivalent_single_u_tube", {"_borehole", "eq_single_u_tube"}),
+            (f"{CLS}.match_effective_borehole_resistance", {"preliminary_new_single_u_tube"}),
+            ("MultipleUTube.to_single", set()), ("CoaxialPipe.to_single", set()), ("SingleUTube.to_single", set()),
+            ("MultipleUTube.u_tube_volumes", set()), ("CoaxialPipe.concentric_tube_volumes", set())]
+    for qual, allowed in pins:
+        fnode = find_function(tree, qual)
+        if fnode is None:
+            raise Unsupported(FILE, tree, f"{qual} not found")
+        _pin_stateless(tree, fnode, FILE, class_names, allowed)
+    ut_tree = parse("utilities.py")
+    _pin_module_has_no_state(ut_tree, "utilities.py")
+    so_node = find_function(ut_tree, "solve_root")
+    if so_node is None:
+        raise Unsupported("utilities.py", ut_tree, "solve_root not found")
+    _pin_stateless(ut_tree, so_node, "utilities.py", set(), set())
     out = [HEADER.format(src="borehole_heat_exchangers.py, utilities.py"), "namespace GHEVerif.Gen\n"]
 
     eq = find_function(tree, f"{CLS}.equivalent_single_u_tube")
